@@ -103,6 +103,69 @@ def run(op, n):
                          kms_script=os.path.join(repo, "ncs", "basic_kms.py"), encrypt_script=os.path.join(repo, "ncs", "encrypt_script.py"),
                          output_dir=Path(d))
         return [b64(os.path.join(d, f)) for f in ("plain_text_digest.bin", "plain_text_size.txt", "suit_encryption_info.bin", "encrypted_content.bin")]
+    if op in ("extractA", "extractB"):
+        from suit_generator import cmd_payload_extract
+        if op == "extractA":
+            cmd_payload_extract.main(os.path.join(W, "multi.suit"), out + "_e.suit", "#p1", out + "_p.bin", None)
+        else:
+            cmd_payload_extract.main(os.path.join(W, "multi2.suit"), out + "_e.suit", "#x0", out + "_p.bin", os.path.join(W, "fw_v1.bin"))
+        return [b64(out + "_e.suit"), b64(out + "_p.bin")]
+    if op in ("signrecA", "signrecB"):
+        # Ed25519 at every level: the signatures themselves are deterministic, the whole output is compared
+        from pathlib import Path
+        from suit_generator import cmd_sign
+        cmd_sign.main(sign_subcommand="recursive", input_envelope=Path(W) / ("multi.suit" if op == "signrecA" else "multi2.suit"),
+                      output_envelope=Path(out + "_r.suit"), configuration=os.path.join(W, "recA.json" if op == "signrecA" else "recB.json"))
+        return [b64(out + "_r.suit")]
+    if op in ("bootB", "bootcfg"):
+        d = out + "_boot"
+        os.makedirs(d, exist_ok=True)
+        if op == "bootB":
+            cmd_image.ImageCreator.create_files_for_boot([os.path.join(W, "env2.suit"), os.path.join(W, "env.suit")], d, 0x0E1E0000, None, "nrf54h20")
+        else:
+            cmd_image.ImageCreator.create_files_for_boot([os.path.join(W, "env2.suit")], d, 0x0E1ED000, os.path.join(W, "boot.config"))
+        return [b64(os.path.join(d, f)) for f in sorted(os.listdir(d))]
+    if op == "updateB":
+        cmd_image.ImageCreator.create_files_for_update(os.path.join(W, "env2.suit"), out + "_s.hex", out + "_p.hex", 0x0001FFF0, 0x00FFFFF0, 0)
+        return [b64(out + "_s.hex"), b64(out + "_p.hex")]
+    if op == "signB":
+        from pathlib import Path
+        from suit_generator import cmd_sign
+        from suit_generator.suit_sign_script_base import SignatureAlreadyPresentActions, SuitSignAlgorithms
+        cmd_sign.main(sign_subcommand="single-level", input_envelope=Path(W) / "env2.suit", output_envelope=Path(out + "_s.suit"),
+                      key_name="ked", key_id=0x11, alg=SuitSignAlgorithms("eddsa"), context=os.path.join(W, "keys"),
+                      sign_script=os.path.join(repo, "ncs", "sign_script.py"), kms_script=os.path.join(repo, "ncs", "basic_kms.py"),
+                      already_signed_action=SignatureAlreadyPresentActions("error"))
+        return [b64(out + "_s.suit")]
+    if op in ("parseyamlA", "parseyamlB"):
+        cmd_parse.main(os.path.join(W, "multi.suit" if op == "parseyamlA" else "multi2.suit"), out + ".yaml", "yaml", False)
+        return [b64(out + ".yaml")]
+    if op in ("convertA", "convertB"):
+        from suit_generator import cmd_convert
+        cmd_convert.main(input_file=os.path.join(W, "keyA.pem" if op == "convertA" else "keyB.pem"), output_file=out + ".c", array_type="uint8_t",
+                         array_name="key_buf", length_type="size_t", length_name="key_len", columns_count=8 if op == "convertA" else 5,
+                         header_file="", footer_file="", indentation_count=4, indentation_tab=False, no_length=False, no_const=False)
+        return [b64(out + ".c")]
+    if op == "mpimerge":
+        cmd_mpi.MpiGenerator.generate(out + "_1.hex", "nordicsemi.com", "nRF54H20_sample_app", 0x0E1FF000, 48, True, False, "update")
+        cmd_mpi.MpiGenerator.generate(out + "_2.hex", "ACME Corp", "acme rad", 0x0E1FF030, 48, False, True, None)
+        cmd_mpi.MpiGenerator.merge(out + "_m.hex", 0x0E1FF000, 144, [out + "_2.hex", out + "_1.hex"])
+        return [b64(out + "_m.hex")]
+    if op == "cachemerge":
+        cmd_cache_create.main(cache_create_subcommand="from_payloads", eb_size=8, output_file=out + "_a.bin",
+                              input=["#a," + os.path.join(W, "fw_v1.bin"), "#b," + os.path.join(W, "fw_v2.bin")])
+        cmd_cache_create.main(cache_create_subcommand="from_payloads", eb_size=64, output_file=out + "_b.bin",
+                              input=["#c," + os.path.join(W, "fw_v2.bin")])
+        cmd_cache_create.main(cache_create_subcommand="merge", eb_size=16, output_file=out + "_m.bin", input=[out + "_a.bin", out + "_b.bin"])
+        return [b64(out + "_m.bin")]
+    if op == "geninfo":
+        from pathlib import Path
+        from suit_generator import cmd_encrypt
+        d = out + "_gi"
+        os.makedirs(d, exist_ok=True)
+        cmd_encrypt.main(encrypt_subcommand="generate-info", encrypted_firmware=Path(W) / "fw_v2.bin", encrypted_key=Path(W) / "empty.bin",
+                         key_id=0x4000AA00, kw_alg="direct", encrypt_script=os.path.join(repo, "ncs", "encrypt_script.py"), output_dir=Path(d))
+        return [b64(os.path.join(d, f)) for f in ("suit_encryption_info.bin", "encrypted_content.bin")]
     if op == "touch_fw":
         shutil.copyfile(os.path.join(W, "fw_v2.bin"), os.path.join(W, "fw.bin"))
         return []
